@@ -31,7 +31,7 @@ WellFormedReadout(it) ==
    /\ \A i \in 2..Len(it.ident) : it.ident[i] # SLASH /\ it.ident[i] # BANG      \* IEC 62056-21: printable except "/" and "!"
    /\ \A i \in 1..Len(it.lines) : DataLineOk(it.lines[i])
    /\ it.ck \in {"ok", "none"}
-   /\ Len(ItemReadout(it)) <= 4096
+   /\ Len(ItemReadout(it)) <= 7400                    \* "each readout well below 8 KiB"
 PlanReadouts(plan) == LET idx == SelectSeq([i \in 1..Len(plan) |-> i], LAMBDA i : plan[i].k = "readout")
                       IN [j \in 1..Len(idx) |-> ItemReadout(plan[idx[j]])]
 
